@@ -170,7 +170,10 @@ def run_mc(pid, tier, workdir):
                 # one step deeper over the well-formed operation shapes
                 runs += [('kind=%s well-formed shapes depth 4' % k, mc_pool_cfg(k, tier, full=False, depth=4)) for k in kinds]
         elif module == 'MC_Router':
-            runs = [('3 pairs, routes of 1..3 hops', mc_router_cfg(tier))]
+            # the deep router scope (4 pairs, 4 hops; the heaviest model) is run by the router properties themselves;
+            # the pool properties that add the router model in the thorough tier use its 3-pair scope
+            rt = tier if pid in ('C11', 'C13') else 'quick'
+            runs = [('4 pairs, routes of 1..4 hops' if rt == 'thorough' else '3 pairs, routes of 1..3 hops', mc_router_cfg(rt))]
         elif module == 'MC_BigNat':
             # self-test of the arithmetic oracle itself (its states are test batches, not system states)
             runs = [('oracle self-test', 'CONSTANT QUICK = %s\nINIT Init\nNEXT Next\nINVARIANT Inv\nCHECK_DEADLOCK FALSE\n' % ('FALSE' if tier == 'thorough' else 'TRUE'))]
